@@ -12,7 +12,6 @@ import (
 	"time"
 
 	"github.com/nyaruka/goflow/flows"
-	"verif/checks/c07/lab"
 	"verif/mc"
 )
 
@@ -200,14 +199,133 @@ func run(c *mc.Ctx) {
 			}
 		})
 	}
+
+	// family E (the setting changes between sprints): a staged flow (message, wait + router, message,
+	// ...) whose every item carries the same translations; the session starts under each of the 20
+	// settings of the base language and every resume is one of the step alphabet. The unit of sharding
+	// is (translations, base, start setting).
+	staged := func(family string, v [3]State, depth int, alphabet []Step) {
+		for _, base := range bases {
+			for _, s := range settingsOfBase(all, base) {
+				if expired {
+					return
+				}
+				mine := c.Mine(idx)
+				idx++
+				if !mine {
+					continue
+				}
+				if c.Expired() {
+					expired = true
+					return
+				}
+				cfg := Config{Action: "stages", Setting: s, BaseAtt: true, BaseQR: true, Tr: map[string]map[string][]string{}, Steps: make([]Step, depth)}
+				for _, p := range []string{"text", "attachments", "quick_replies", "arguments", "name"} {
+					cfg.Tr[p] = trOf(p, v)
+				}
+				sa, err := cfg.Assets()
+				if err != nil {
+					c.Violation("harness:assets:"+family, "assets: "+err.Error()+"\n"+mc.JSON(cfg), cfg)
+					continue
+				}
+				var rec func(i int)
+				rec = func(i int) {
+					if i == depth {
+						one := cfg
+						one.Steps = append([]Step(nil), cfg.Steps...)
+						checkOne(c, family, sa, one)
+						return
+					}
+					for _, st := range alphabet {
+						cfg.Steps[i] = st
+						rec(i + 1)
+					}
+				}
+				rec(0)
+			}
+		}
+	}
+	present := []State{Absent, Same}
+	vectors(present, func(v [3]State) { staged("stages:one-resume", v, 1, stepAlphabet(false)) })
+	if c.Thorough() {
+		vectors(present, func(v [3]State) { staged("stages:two-resumes", v, 2, stepAlphabet(false)) })
+	} else {
+		staged("stages:two-resumes", [3]State{Same, Same, Same}, 2, stepAlphabet(true))
+	}
+
+	// family T (several destinations, a template): text vectors over {absent, translated} x base x
+	// all_urns x template availability per channel x (20 settings x URN lists)
+	avail := [][]string{nil, {langA}, {langB}, {langA, langB}}
+	urnLists := [][]string{{"tel"}, {"twitter"}, {"tel", "twitter"}, {"twitter", "tel"}}
+	thirdAvail := [][]string{nil}
+	if c.Thorough() {
+		thirdAvail = avail
+		urnLists = nil
+		var perm func(cur []string)
+		perm = func(cur []string) {
+			if len(cur) > 0 {
+				urnLists = append(urnLists, append([]string(nil), cur...))
+			}
+			for _, ch := range destChannels {
+				if !contains(cur, ch) {
+					perm(append(cur, ch))
+				}
+			}
+		}
+		perm(nil)
+	}
+	vectors(present, func(v [3]State) {
+		for _, base := range bases {
+			for _, allURNs := range []bool{false, true} {
+				for _, t0 := range avail {
+					for _, t1 := range avail {
+						for _, t2 := range thirdAvail {
+							if expired {
+								return
+							}
+							mine := c.Mine(idx)
+							idx++
+							if !mine {
+								continue
+							}
+							if c.Expired() {
+								expired = true
+								return
+							}
+							cfg := Config{Action: "send_msg", Setting: Setting{Base: base}, Tr: map[string]map[string][]string{"text": trOf("text", v)},
+								Dest: &Dest{AllURNs: allURNs, Templates: map[string][]string{"tel": t0, "twitter": t1, "facebook": t2}}}
+							sa, err := cfg.Assets()
+							if err != nil {
+								c.Violation("harness:assets:send_msg:destinations", "assets: "+err.Error()+"\n"+mc.JSON(cfg), cfg)
+								continue
+							}
+							for _, s := range settingsOfBase(all, base) {
+								for _, ul := range urnLists {
+									if !allURNs && len(ul) == 1 {
+										continue // one URN: the same case as with all_urns
+									}
+									one := cfg
+									one.Setting = s
+									d := *cfg.Dest
+									d.URNs = ul
+									one.Dest = &d
+									checkOne(c, "send_msg:destinations", sa, one)
+								}
+							}
+						}
+					}
+				}
+			}
+		}
+	})
 	if expired {
-		c.Cap("time budget reached: families are enumerated in a fixed order (per property, crosses, router, say_msg, other items, broadcast) and every flow before the cap was checked under all its settings")
+		c.Cap("time budget reached: families are enumerated in a fixed order (per property, crosses, router, say_msg, other items, broadcast, stages, destinations) and every flow before the cap was checked under all its settings")
 	}
 }
 
 // checkFlow builds the flow once and runs it under every setting.
 func checkFlow(c *mc.Ctx, family string, cfg Config, settings []Setting) {
-	sa, err := lab.NewSA(cfg.Definition())
+	sa, err := cfg.Assets()
 	if err != nil {
 		c.Violation("harness:assets:"+family, "assets: "+err.Error()+"\n"+mc.JSON(cfg), cfg)
 		return
@@ -254,8 +372,10 @@ func checkOne(c *mc.Ctx, family string, sa flows.SessionAssets, cfg Config) {
 
 func outcomeClass(notes []string) string {
 	var ds []string
+	seen := map[string]bool{}
 	for _, n := range notes {
-		if strings.Contains(n, ":decided-by:") || strings.HasPrefix(n, "locale-from:") {
+		if (strings.Contains(n, ":decided-by:") || strings.HasPrefix(n, "locale-from:") || strings.HasPrefix(n, "dest:")) && !seen[n] {
+			seen[n] = true
 			ds = append(ds, n)
 		}
 	}
@@ -271,7 +391,7 @@ func replayFn(c *mc.Ctx, raw json.RawMessage) (string, bool) {
 		return "bad replay: " + err.Error(), false
 	}
 	def := cfg.Definition()
-	sa, err := lab.NewSA(def)
+	sa, err := cfg.Assets()
 	if err != nil {
 		return "assets: " + err.Error(), true
 	}
@@ -300,13 +420,17 @@ func init() {
 			"(X) full cross of the state vectors of two properties (quick: text x attachments at 6 settings covering every chain shape; thorough: all three pairs at all 60 settings); " +
 			"(R) switch router: all state vectors of the case arguments x category name {untranslated, translated} and vice versa x 60 settings (the used arguments are read off the match, the category name off category_localized); " +
 			"(V) say_msg in a voice flow: all 216 text vectors x 60 settings; (O) play_audio's URL, send_email's subject and body, set_run_result's category: all 125 vectors x 60 settings each; (B) send_broadcast: per property all state vectors x others {untranslated, translated} x 3 base languages x 2 settings, each language's content judged with the chain [that language, base]. " +
-			"Every (flow, setting) is distinct by construction; distinct_nontrivial counts the sessions in which some property was decided by a rung other than 'the first preference is the base language'.",
+			"(E) the setting changes between sprints: a staged flow (stage = send_msg with text, attachments and quick replies, then - unless last - a wait and a switch router with a localized case argument and category name; all items carry the same translations, one of the 8 vectors over {absent, translated} per language A, B, C) x 3 base languages x the 20 start settings x every sequence of resumes over the step alphabet {the live session object is resumed, the session is serialized and read back first} x {no environment carried, an environment with one of the 5 allowed-language lists} x {no contact carried, the contact with one of the 4 languages} = 60 steps; every resume is a msg resume read from JSON as a host sends it. Quick: all one-resume sequences for all 8 vectors (28 800 sessions) and, for the fully translated vector, all two-resume sequences over the 12 steps that carry no contact (8 640); thorough: all 3 600 two-resume sequences for all 8 vectors. Every stage's router and message are judged with the chain of the setting in effect at that sprint (a carried environment / contact replaces the allowed languages / the contact's language from then on), identically for live and restored objects; the key names how the object got there (live or restored, and what has been carried to it since it was created) and whether the value is the one the replaced setting would have given. " +
+			"(T) several destinations and a template: send_msg with a template (one literal variable) over text vectors {absent, translated}^3 x 3 base languages x all_urns {no, yes} x the template's translations per channel {none, A, B, A and B} for the channels tel and twitter (16; thorough: also a third channel facebook, 64) x 20 settings x the contact's URN lists {[tel], [twitter], [tel, twitter], [twitter, tel]} (thorough: all 15 ordered non-empty lists over the three channels). Every msg_created is judged on its own: a message that carries a templating must have the text of one of the template's translations for its destination's channel and a locale naming that translation's language; every other message must have the chain's text and a locale naming the language the chain took it from - wherever it stands among the destinations (the key names the position: only / first / after a templated one / after untemplated ones). A panic of the engine is a violation keyed by the panicking function and whether the environment has a default language. " +
+			"Every (flow, setting, resumes / destinations) is distinct by construction; distinct_nontrivial counts the sessions in which some property was decided by a rung other than 'the first preference is the base language'.",
 		Assumptions: []string{
 			"a translation is non-empty iff it has at least one item and is not [\"\"] (the reading the statement's why-clause gives)",
 			"the statement does not say what a router compares when the winning translation of the arguments has a different number of arguments than the base: those sessions are executed and counted but not judged",
 			"a message whose text, attachments and quick replies are all empty has no language the statement could name: its locale is not judged; a say_msg whose text is empty creates no message and is not judged",
 			"only literal texts are used (no expressions), so 'text-less' is unambiguous",
 			"for send_broadcast the statement's chain is applied with the explicit preference list [translation language, base language]; which languages get a translation is not judged",
+			"a message that carries a templating is the template's text, not the action's: the statement's chain does not apply to it; which of the channel's translations is picked (and that one is picked at all when the channel has some) is not judged, only that the locale names the language of the translation whose text the message has; attachments and quick replies of templated messages are not judged",
+			"a resume that carries an environment or the contact replaces the session's from that sprint on (resumes/base.go Apply); 'the environment's allowed languages' and 'the contact's language' of the statement are read as the ones in effect when the text is chosen",
 			"clock, UUID and random sources are owned by the harness",
 		},
 		Run:    run,
@@ -344,5 +468,19 @@ func guards(r *mc.Result, tier string) []string {
 	need("broadcast:language-with-own-translation")
 	need("broadcast:language-falls-back-to-base")
 	need("not-judged:router-arguments-of-different-length")
+	for _, obj := range []string{"live", "restored"} {
+		for _, what := range []string{"environment", "contact", "environment-and-contact"} {
+			need("stages:" + obj + ":new-" + what + "-makes-the-contact-language-allowed")
+			need("stages:" + obj + ":new-" + what + "-makes-the-contact-language-not-allowed")
+		}
+		need("stages:" + obj + ":new-contact-replaces-an-allowed-contact-language-by-another")
+		need("stages:" + obj + ":new-environment-moves-the-default-language")
+		need("stages:" + obj + ":carried-setting-keeps-the-chain")
+		need("stages:" + obj + ":resume-carries-nothing")
+	}
+	need("stages:live-resume-of-a-restored-session")
+	for _, x := range []string{"templated", "untemplated", "template-language-differs-from-the-action-text's", "untemplated-after-templated-in-another-language", "templated-after-untemplated", "templated-after-templated-in-another-language"} {
+		need("dest:" + x)
+	}
 	return f
 }
